@@ -55,8 +55,8 @@ def run(chk):
         ncls = 2 if it % 2 == 0 else int(rng.integers(3, 5))
         X, y = U.class_data(rng, n_classes=ncls)
         k, n = X.shape
-        if rng.random() < 0.2:
-            X = X * 4096.0          # the same data in large units: small weights
+        if rng.random() < 0.35:
+            X = X * float(2 ** int(rng.integers(12, 20)))          # the same data in large units: small weights
         bcfg = U.basis_cfg(rng, n, k)
         if ncls > 2 and rng.random() < 0.4 and bcfg["kind"] != "Identity":
             bcfg["n_basis_modes"] = min(ncls, n - 1, k - 1) if min(ncls, n - 1, k - 1) >= 2 else bcfg["n_basis_modes"]
@@ -121,6 +121,17 @@ def run(chk):
             # ---- multiclass: objective within the solver's tolerance of a tight re-solve; not improvable by perturbations;
             #      rows reported zero satisfy the KKT inequality
             W = w_exp
+            # the oracle's contract holds when it converged: sklearn stops after max_iter=1000 sweeps with a ConvergenceWarning on
+            # ill-conditioned Psi^-1 (pysensors forwards **optimizer_kws, so a user can raise max_iter); those cases are not judged
+            import warnings as _w
+            with _w.catch_warnings(record=True) as ws:
+                _w.simplefilter("always")
+                probe = MultiTaskLasso(alpha=l1).fit(psi, W)
+            if any("converge" in str(x.message).lower() for x in ws):
+                chk.count("SOLVER-NOT-CONVERGED-SKIP")
+                if not np.array_equal(probe.coef_.T, s):
+                    chk.violation("impl", "multiclass-not-default-solver-result", "sensor_coef_ differs from MultiTaskLasso(alpha=l1_penalty) on (Psi^-1, w)", ctx)
+                continue
             ref = MultiTaskLasso(alpha=l1, tol=1e-13, max_iter=200000).fit(psi, W)
             Sref, bref = ref.coef_.T, ref.intercept_
             b = np.mean(W - psi @ s, axis=0)
